@@ -92,4 +92,8 @@ CASES = [
                     ("y6", "builders: shared reserved-label guard, a builder_push! macro, macro <-> hand-written setters, delegation, shared EC2 constructor"),
                     ("y7", "code moved between modules: context enums into private submodules, builder macros, read_to_value to util, to_cbor_array to common, CborOrdering to key"),
                     ("y8", "private signatures changed: try_as_tag unboxed, try_as_map returns IntoIter, CoseSignature::from_cbor_value_depth(value) -> from_cbor_array_depth(items): documented limit"))
+] + [
+    {"id": "benign10-good-%s" % m, "props": ALL, "expect": "quiet", "patches": [("selftest/benign/g10-%s.diff" % m, False)],
+     "note": "round-10 pair %s-p without its slip (a small behaviour-preserving commit, see seeded/%s-p/NOTES.md)" % (m, m)}
+    for m in ("C01", "C03", "C05", "C07", "C09", "C11", "C12", "C13", "C15", "C16", "C17", "C18", "C19", "C20")
 ]
